@@ -35,6 +35,7 @@ theorem step_frame (c : Call) (s : FS) (p : Path) (h : p ∉ touched c) : step c
   | unlink q => simp [touched] at h; simp [step, upd, h]
   | mkdir q => simp [touched] at h; simp [step, upd, h]
   | rmdir q => simp [touched] at h; simp [step, upd, h]
+  | skip o ev => rfl
 
 theorem stepK_agrees {s : FS} {K K' : Known} {c : Call} (h : Agrees s K)
     (hk : stepK c K = some K') : Agrees (step c s) K' := by
@@ -60,6 +61,9 @@ theorem stepK_agrees {s : FS} {K K' : Known} {c : Call} (h : Agrees s K)
   | rmdir q =>
     simp only [stepK, Option.some.injEq] at hk; subst hk
     exact agrees_upd h q none
+  | skip o ev =>
+    simp only [stepK, Option.some.injEq] at hk; subst hk
+    exact h
 
 theorem packObjsK_sound {s : FS} {K : Known} (h : Agrees s K) {p : Nat} {objs : List Nat}
     (hp : packObjsK K p = some objs) :
@@ -352,6 +356,7 @@ theorem inv_step {spec : Spec} {G GP : Nat → List Nat} {s0 s : FS} {K K' : Kno
   have hK' : Agrees (step c s) K' := stepK_agrees hK hk
   unfold safeStep at hsafe
   simp only [List.all_eq_true, Bool.and_eq_true] at hsafe
+  replace hsafe := hsafe.2
   have hobj : ∀ t ∈ touched c, objsOK spec K K' t = true := fun t ht => (hsafe t ht).1.1.1.1.2
   have hrefs : ∀ t ∈ touched c, refsOK spec spec.known K K' t = true := fun t ht => (hsafe t ht).1.1.1.2
   have hknown : ∀ t ∈ touched c, ∃ l, mayChange K K' t = some l := by
@@ -639,5 +644,33 @@ theorem pre_of_preK {spec : Spec} (h : preK spec = true) :
     unfold toFS at h1 h2
     rw [h1, h2] at this
     simpa using this
+
+/-! ### retry after a crash -/
+
+theorem runK_agrees {s : FS} : ∀ (p : List Call) (K K' : Known), Agrees s K → runK p K = some K' →
+    Agrees (run p s) K' := by
+  intro p
+  induction p generalizing s with
+  | nil => intro K K' h hk; simp only [runK, Option.some.injEq] at hk; subst hk; exact h
+  | cons c cs ih =>
+    intro K K' h hk
+    simp only [runK] at hk
+    split at hk
+    · rename_i K1 h1
+      exact ih K1 K' (stepK_agrees h h1) hk
+    · cases hk
+
+theorem retry_sound {spec : Spec} {G GP : Nat → List Nat} {s0 : FS} (hp : Pre spec G GP s0)
+    {p : List Call} (hc : checkProgram spec p = true) {qs : List (List Call)}
+    (hq : retryOK spec p qs = true) (k : Nat) (hk : k < qs.length) (j : Nat) :
+    Inv spec G GP s0 (run ((qs.getD k []).take j) (run (p.take k) s0)) := by
+  unfold retryOK at hq
+  rw [List.all_eq_true] at hq
+  have := hq k (by simpa using hk)
+  split at this
+  · rename_i Kk hKk
+    exact go_sound hp _ Kk _ (runK_agrees _ _ _ hp.agrees hKk)
+      (go_sound hp p spec.known s0 hp.agrees (inv_init hp) hc k) this j
+  · cases this
 
 end Dulwich.Crash
